@@ -136,8 +136,7 @@ theorem afterLock_not_preLock (op : Op) (fd : Fd) : (afterLock op fd).preLock = 
 theorem advancePc_data_not_preLock (op : Op) (pc : Pc) (n : Nat) (r : Res) (hd : pc.isData = true) :
     (advancePc op pc n r).preLock = false := by
   cases pc <;> simp [Pc.isData] at hd
-  all_goals simp only [advancePc, rollbackPc, Gen.Lockedfile.truncAfterLock, Gen.Lockedfile.tRollback,
-    Gen.Lockedfile.tTailFirst, if_true, Bool.and_true]
+  all_goals simp only [advancePc, rollbackPc, Gen.Lockedfile.truncAfterLock, if_true]
   all_goals (repeat' split)
   all_goals first | rfl | exact afterOpen_not_preLock _ _
 
